@@ -620,6 +620,8 @@ def check_p_t_inventory(ctx, rep):
 
 
 def run(ctx, rep):
+    from sa import callbind
+    callbind.run_for(ctx, rep, 'C04', 14)
     rep.explanation = (
         "Literal rate matrices (HKY, GTR, JC69) are turned into polynomials over π, κ, r and checked as identities: rows sum to zero, "
         "off-diagonals are positive combinations, detailed balance for all six pairs, κ / rate placement.  Closed forms (JC69, GeneralJC69) "
